@@ -468,6 +468,18 @@ unsafe fn h_sigmask(how: c_int) -> Option<c_int> {
     rec(K_SIGMASK, how as i64, 0, 0, 0, 0, b"");
     None
 }
+unsafe fn h_signal(sig: c_int, handler: usize) -> Option<usize> {
+    if !RECORDING || IN_CHILD == 0 {
+        return None;
+    }
+    if let Some(e) = fault_check(K_SIGNAL) {
+        rec(K_SIGNAL, sig as i64, handler as i64, 0, -1, e, b"");
+        crate::raw::set_errno(e);
+        return Some(libc::SIG_ERR);
+    }
+    rec(K_SIGNAL, sig as i64, handler as i64, 0, 0, 0, b"");
+    None
+}
 unsafe fn h_exit(code: c_int) {
     if RECORDING {
         rec(K_EXIT, code as i64, 0, 0, 0, 0, b"");
@@ -542,6 +554,7 @@ pub fn install() {
     t.setpgid = Some(h_setpgid);
     t.execve = Some(h_execve);
     t.sigmask = Some(h_sigmask);
+    t.signal = Some(h_signal);
     t.exit = Some(h_exit);
     t.waitpid = Some(h_waitpid);
     t.kill = Some(h_kill);
